@@ -66,7 +66,10 @@ func caseGen() *rapid.Generator[Case] {
 		// a small palette of styles per case so that formats repeat
 		palette := rapid.SliceOfN(rapid.SampledFrom(Styles), 1, 3).Draw(t, "palette")
 		for i := 0; i < n; i++ {
-			kind := rapid.IntRange(0, 12).Draw(t, "kind")
+			kind := rapid.IntRange(0, 14).Draw(t, "kind")
+			if kind >= 13 {
+				kind = 9 // content changes between renders (mutate + Update) are the commonest reason for stale state
+			}
 			if kind == 12 {
 				c.Acts = append(c.Acts, Act{K: "realign", I: rapid.IntRange(0, 3).Draw(t, "col"), Key: rapid.IntRange(0, 3).Draw(t, "align")})
 			} else if kind == 10 {
